@@ -96,6 +96,10 @@ def check_fft(case, ctx):
 INEXACT = [(n, k) for n in range(1, 41) for k in range(n, n + 41) if n * (k / n) != k]
 
 
+def _sh():
+    return st.one_of(st.just(0), st.integers(-3, 3), st.integers(-8, 8).map(lambda v: v / 4), U.nice_float(-4, 4).map(lambda v: round(v, 3)))
+
+
 def strat_pairs(tier):
     nmax = {'quick': 14, 'thorough': 40}[tier]
     ax = U.axis_len(nmax)
@@ -107,6 +111,8 @@ def strat_pairs(tier):
         'extra': st.tuples(extra(), extra()).map(list),       # k = n + extra  (per axis)
         'kind': U.field_kinds, 'method': st.sampled_from(['mdft', 'czt']), 'order': st.sampled_from(['fwd-inv', 'inv-fwd']),
         'prec': st.sampled_from([64, 64, 64, 32]), 'seed': U.seeds, 'mag': MAG,
+        # the same output shift (x, y) handed to both legs: the pair stays mutually inverse (the executors shift the coordinates of both planes)
+        'shift': st.one_of(st.just([0, 0]), st.just([0, 0]), st.tuples(_sh(), _sh()).map(list)),
         # per axis: -1 = keep the drawn (n, extra), otherwise an index into INEXACT (small sizes first in the quick tier)
         'inexact': st.one_of(st.just([-1, -1]), st.just([-1, -1]), st.tuples(st.integers(-1, {'quick': 24, 'thorough': len(INEXACT) - 1}[tier]),
                                                                              st.integers(-1, {'quick': 24, 'thorough': len(INEXACT) - 1}[tier])).map(list))})
@@ -142,12 +148,18 @@ def check_pairs(case, ctx):
             bucket += ':nonsquare-or-peraxisQ'
         if any(a % 2 == 0 and b % 2 == 1 for a, b in zip(shape, k)) or any(b % 2 == 0 and a % 2 == 1 for a, b in zip(shape, k)):
             bucket += ':even<->odd'
+    sh = tuple(case.get('shift', [0, 0]))
+    shifted = any(v != 0 for v in sh)
+    if shifted:
+        ctx.label('shifted', 'one-axis-shift' if (sh[0] == 0) != (sh[1] == 0) else 'both-axes-shift')
+        bucket += ':shifted'
+        ctx.nt(True)
     with U.precision(prec):
-        F = ctx.call(fwd, f, Q, k)
+        F = ctx.call(fwd, f, Q, k, sh) if shifted else ctx.call(fwd, f, Q, k)
         U.check_shape(F, k, bucket)
         ctx.require(abs(_energy(F) - E) <= 10 * tol * max(E, 1e-300), bucket + ':energy',
                     '%s %s onto the full band %s: energy %.15g -> %.15g' % (method, shape, k, E, _energy(F)))
-        g = ctx.call(inv, np.asarray(F), 1, tuple(shape))
+        g = ctx.call(inv, np.asarray(F), 1, tuple(shape), sh) if shifted else ctx.call(inv, np.asarray(F), 1, tuple(shape))
     U.check_close(g, f, tol, bucket + ':roundtrip', '%s %s %s->%s->%s' % (method, case['order'], shape, k, shape), atol=tol * math.sqrt(E))
 
 
@@ -224,6 +236,21 @@ def check_free(case, ctx):
         gs = prop(f, z1 + z2, Q)
         U.check_close(g12, gs, tol, 'free_space:additive', 'P(z2)P(z1) != P(z1+z2) for z1=%g z2=%g' % (z1, z2), atol=tol * math.sqrt(E))
         U.check_equal(f, f_before, 'free_space:input-modified', 'propagation modified its input array')
+        if via == 'wavefront':
+            # one Wavefront object across several propagations, its public data array edited in place or reassigned in between: every
+            # result follows the data the object holds at the time of the call
+            wh = P.Wavefront(f.copy(), wvl, dx)
+            h1 = np.array(ctx.call(wh.free_space, z1, Q).data, copy=True)
+            U.check_close(h1, g1, tol, 'free_space:same-object', 'first propagation from a re-used Wavefront', atol=tol * math.sqrt(E))
+            wh.data *= (0.5 - 1.5j)
+            h2 = np.array(ctx.call(wh.free_space, z1, Q).data, copy=True)
+            U.check_close(h2, (0.5 - 1.5j) * np.asarray(g1), tol, 'free_space:stale-after-inplace-edit',
+                          'same Wavefront, data scaled in place between two propagations: the second result does not follow the data', atol=2 * tol * math.sqrt(E))
+            wh.data = U.embed(np.asarray(g1), padded) if tuple(np.shape(wh.data)) != tuple(padded) else np.array(g1, copy=True)
+            if tuple(np.shape(wh.data)) == tuple(np.shape(f)):
+                h3 = np.asarray(ctx.call(wh.free_space, -z1, 1).data)
+                U.check_close(h3, f0, tol, 'free_space:stale-after-reassignment', 'same Wavefront, data reassigned to P(z) f, then P(-z): does not return f',
+                              atol=2 * tol * math.sqrt(E))
         ctx.require(float(wvl) == wvl0 and float(dx) == dx0, 'free_space:argument-modified',
                     'the wavelength / spacing objects of the caller were changed in place: wvl %r -> %r, dx %r -> %r' % (wvl0, float(wvl), dx0, float(dx)))
         # a transfer function handed out earlier stays what it was (no aliasing with anything later calls reuse)
